@@ -764,6 +764,12 @@ theorem weekday_repr_spec (w : Int) (n : Option Int) :
   simp [hn, hw]
   intro v hv; simp [hv]
 
+/-- **gen_ne_eq_model.** The translated `__ne__` is the negation of the translated `__eq__` (hence of the model's `eq`). -/
+theorem gen_ne_eq_model (a b : RD) : Gen.ne a b = .ok (!RDM.eq a b) := by
+  unfold Gen.ne
+  rw [RDG.eq_eq]
+  cases RDM.eq a b <;> simp [Except.bind]
+
 /-! ## `repr` and the `weeks` property, translated -/
 
 theorem rel_step (l : List String) (name : String) (v : Int) :
